@@ -39,6 +39,17 @@ def run(index, rep):
     flow = Flow(index, [PARAMS, "src/food_system/feed_and_biofuels.py"], sources=("create_feed_food_from_kcals", "increase_biofuels_then_feed"))
     rep.guard(feedge, index, rep, flow)
     rep.guard(zero, index, rep, flow)
+    rep.guard(lp_meat, index, rep)
+
+
+def lp_meat(index, rep):
+    """the last step of 'made available to people': which hand-off the LP bounds the meat of a month by"""
+    from .lpdb import LPDB
+    from .c01 import meat_supply_read
+    db = LPDB(index)
+    for opt in ("to_humans", "to_animals"):
+        db.extract_resource("ADD_MEAT", opt)
+    meat_supply_read(db, rep, "C05.LP")
 
 
 def state5(index, rep):
